@@ -13,7 +13,7 @@ CONSTANTS
   MaxPub = 2
   MaxPrune = 1
   MaxImp = 1
-  MaxAck = 3
+  MaxAck = 2
   MaxForeign = 1
   MaxReset = 1
   MaxCrash = 1
